@@ -12,21 +12,25 @@ import (
 
 // RunResult is what one simulated run reports.
 type RunResult struct {
-	Seed          uint64      `json:"seed"`
-	Variant       string      `json:"variant"`
-	Tape          []uint64    `json:"tape,omitempty"`
-	Labels        []string    `json:"labels,omitempty"`
-	Spans         []sim.Span  `json:"-"`
-	Violations    []Violation `json:"violations,omitempty"`
-	HarnessErrors []string    `json:"harness_errors,omitempty"`
-	SetupError    string      `json:"setup_error,omitempty"`
-	Stats         *Stats      `json:"-"`
-	LogDigest     string      `json:"log_digest"`
-	Log           []string    `json:"-"`
-	Calls         int         `json:"calls"`
-	Overrun       int         `json:"-"`
-	World         *World      `json:"-"`
+	Seed          uint64         `json:"seed"`
+	Variant       string         `json:"variant"`
+	Tape          []uint64       `json:"tape,omitempty"`
+	Labels        []string       `json:"labels,omitempty"`
+	Spans         []sim.Span     `json:"-"`
+	Violations    []Violation    `json:"violations,omitempty"`
+	HarnessErrors []string       `json:"harness_errors,omitempty"`
+	KnownSeen     map[string]int `json:"-"`
+	SetupError    string         `json:"setup_error,omitempty"`
+	Stats         *Stats         `json:"-"`
+	LogDigest     string         `json:"log_digest"`
+	Log           []string       `json:"-"`
+	Calls         int            `json:"calls"`
+	Overrun       int            `json:"-"`
+	World         *World         `json:"-"`
 }
+
+// IsKnown is installed by the command: matches recorded open findings.
+var IsKnown func(prop, fp string) bool
 
 // Variant names the configuration of a run: "faults" (swarm of permitted fault kinds) or
 // "faultfree" (the separate fault-free configuration).
@@ -50,6 +54,7 @@ func RunOne(prop string, seed uint64, variant string, vals []uint64, opts ...fun
 		t = sim.ReplayTape(seed, vals)
 	}
 	cfg := ProfileFor(prop)
+	cfg.IsKnown = IsKnown
 	cfg.FaultFree = variant == "faultfree"
 	cfg.Allow.Assets = cfg.Allow.Assets && variant == "assets"
 	for _, o := range opts {
@@ -74,6 +79,7 @@ func RunOne(prop string, seed uint64, variant string, vals []uint64, opts ...fun
 	res.Tape, res.Labels, res.Spans = t.Vals, t.Labels, t.Spans
 	res.Violations = w.Violations
 	res.HarnessErrors = w.HarnessErrors
+	res.KnownSeen = w.KnownSeen
 	res.Stats = w.Stats
 	res.Log = w.Log
 	res.Calls = len(w.Calls)
@@ -104,6 +110,11 @@ func ProfileFor(prop string) *Config {
 		cfg.Oracles = []Oracle{&C05{}}
 	case "C06":
 		cfg.Oracles = []Oracle{C06{}}
+	case "C10":
+		cfg.Fork = true
+	case "C20":
+		cfg.Allow.Assets = true
+		cfg.Oracles = []Oracle{C20{}}
 	case "C02":
 		// F4 is off for the comparison (different assets legitimately behave differently)
 		cfg.Shadow = true
